@@ -340,6 +340,27 @@ def run(ctx, case):
             for f in em.failed:
                 pass
         solved += 1
+        # "in ANY solved system": also one in which the accepted component took the place of another component of an
+        # already analysed system (change_comp) - compared with the freshly built twin above and judged by the model
+        if kind not in ("Source", "PMux") and _ == 0:
+            alt = _c("X", "RLoad", {"rs": 100.0}, ["S"]) if kind in S.LOADS else _c("X", "RLoss", {"rs": 1.0}, ["S"])
+            sp0 = probe(kind, neg, V, I)
+            sp0["comps"] = [alt if c["name"] == "X" else c for c in sp0["comps"]]
+            st0, so = H.try_build(sp0)
+            if st0 == "ok":
+                H.solve(so)
+                stc, e = H.call(so.change_comp, "X", comp=S.make_comp(ns, _c("X", kind, neg, [])))
+                st3, d3 = H.solve(so) if stc == "ok" else ("raise", e)
+                if st3 == "ok":
+                    diffs = H.frames_equal(d2, d3, rel=1e-9)
+                    ctx.check("sign.same_behaviour", not diffs, dict(det, differences=diffs[:5], history="solve, change_comp(X), solve",
+                                                                     compared_with="freshly built system"))
+                    em = H.Emit(ctx, accept=("energy.loss_range", "energy.eff", "phys.no_gain"), prefix="accepted:",
+                                extra={"probe": {"V": V, "I": I}, "history": "solve, change_comp(X), solve"})
+                    M.check_table(em, probe(kind, neg, V, I), d3, M.Tol(), 25.0)
+                    ctx.count("replacement_probe", kind)
+                else:
+                    ctx.check("sign.same_behaviour", False, dict(det, history="solve, change_comp(X), solve", outcome=H.exc_sig(d3)))
     ctx.see("sign_kinds", "%s:%s" % (kind, ",".join(sorted(case["negate"]))))
     if solved >= 2:
         ctx.nontrivial(["sign", kind, pos, case["negate"], case["neg_supply"]])
